@@ -50,6 +50,12 @@ func genSelParse(c *Ctx) {
 		`.a-b`, `.a$b`, `._x`, `.9a`, `.$a`, `.["a\"b"]`, `.["a\\"]`, `.a["b"].c[0][1:][]?`, `.a .b`, `.a[ 0 ]`, `.[+1]`, `.[007]`, `.[-0]`, `.[0x1]`} {
 		c.Emit("selparse/corpus", WStr(t), selParseObs(t))
 	}
+	// characters that mean something outside quotes, inside a quoted name (and repeated, and next to the same character outside)
+	for _, in := range []string{"?", "??", "???", "a??", "??b", "a??b", ".", "..", "a.b", "[", "]", "[0]", "[]", ":", "1:2", "a]?", "?]", `"`, `""`, `a"`, `"a`, "??:", " ", "a  b"} {
+		for _, t := range []string{`.["` + in + `"]`, `.["` + in + `"]?`, `.["` + in + `"]??`, `.a["` + in + `"].b`, `.["` + in + `"]["` + in + `"]`, `.["x"]?["` + in + `"]`} {
+			c.Emit("selparse/quoted", WStr(t), selParseObs(t))
+		}
+	}
 	// spellings of numbers in indexes and slice bounds: leading zeros, signs, base prefixes, digit separators
 	for _, f := range []string{"010", "08", "09", "007", "-011", "-08", "0x10", "0X1f", "0b11", "0o7", "0_7", "1_0", "+5", "+0", "00", "-0", "-00", "1e2", " 1", "1 ", "٣", "１", "0.0", "1.", "--1", "+-1"} {
 		for _, t := range []string{".[" + f + "]", ".[" + f + ":]", ".[:" + f + "]", ".[" + f + ":" + f + "]", ".[1:" + f + "]?", ".a[" + f + ":2]", ".[" + f + "]?"} {
